@@ -102,3 +102,186 @@ def check_c13(tier):
              "symlinks) and scanned by the real library; the indexed set must equal PyIndexed (root-relative rules)",
         assumptions=["runs as root: permission-denied faults cannot be produced (invalid UTF-8 and dangling symlinks instead)",
                      "exclude patterns limited to the shapes `dir/**` and `**/name.py` (glob crate semantics)"])
+
+
+# ------------------------------------------------------------------------------------------- C14
+import render as R  # noqa: E402
+
+
+def imp_universe(root):
+    return R.Universe({"c": root + "/R/conftest.py", "cs": root + "/R/sub/conftest.py", "u": root + "/R/sub/test_u.py",
+                       "ti": root + "/R/test_imp.py", "m1": root + "/R/mod1.py", "m2": root + "/R/mod2.py",
+                       "pk": root + "/R/pkg/__init__.py", "m3": root + "/R/pkg/mod3.py"})
+
+
+def defid(d):
+    return None if d is None or d.get("file") == "NOFILE" else (d["file"], d["idx"])
+
+
+def check_c14(tier):
+    V = C.Verdict("C14", tier, "model_checking")
+    meta = C.run_tlc("Imports", "Imports.cfg", workers=12, timeout=3600)
+    if not meta["ok"]:
+        raise C.ToolError("TLC on Imports failed: %s" % meta["errors"])
+    metav = C.run_tlc("Plugins", "Plugins.cfg", workers=4, timeout=3600)
+    if not metav["ok"]:
+        raise C.ToolError("TLC on Plugins failed: %s" % metav["errors"])
+    C.build_harness()
+    base = os.path.join(C.BUILD, "ws", "c14-%d" % os.getpid())
+    shutil.rmtree(base, ignore_errors=True)
+    cases = list(C.tlc_cases(meta))
+    hcases, ctx = [], {}
+    for n, c in enumerate(cases):
+        root = os.path.join(base, "i%d" % n)
+        uni = imp_universe(root)
+        files = {s: R.render_checked(uni, s, m) for s, m in c["ws"].items()}
+        for s, r in files.items():
+            os.makedirs(os.path.dirname(uni.paths[s]), exist_ok=True)
+            with open(uni.paths[s], "w") as fh:
+                fh.write(r.text)
+        using = c["using"]
+        ops = [{"op": "scan", "root": root + "/R"}]
+        it_idx = len(c["ws"][using]["items"])
+        for j in range(1, 6):
+            ln, cs, ce = files[using].use_pos[(it_idx, "p", j)]
+            ops.append({"op": "goto", "path": uni.paths[using], "line": ln - 1, "col": cs})
+        ops.append({"op": "available", "path": uni.paths[using]})
+        ops.append({"op": "snapshot", "full": True})
+        ctx[n] = (c, uni, files)
+        hcases.append({"id": n, "ops": ops})
+    results = list(C.run_harness(hcases, threads=8))
+    order = ["fa", "fb", "fc", "fp", "fz"]
+    for res in results:
+        c, uni, files = ctx[res["id"]]
+        rows = {r["name"]: r for r in c["rows"]}
+        r = res["res"]
+        snap = r[7]
+        texts = {uni.paths[s][len(os.path.dirname(uni.paths["c"])) - 1:]: f.text for s, f in files.items()}
+
+        def dec(d):
+            if d is None:
+                return None
+            if "panic" in d:
+                return ("PANIC", d["panic"])
+            slot = uni.slot_of_path.get(d["file"])
+            return (slot, files[slot].line_item.get(d["line"], -d["line"])) if slot else ("?", d["file"])
+
+        # which modules did the scan discover?
+        analysed = {uni.slot_of_path.get(p) for p in snap["cached"]} if isinstance(snap, dict) else set()
+        want_disc = set(c["discovered"])
+        V.count()
+        if isinstance(snap, dict) and not want_disc <= analysed:
+            V.violation({"shape": c["shape"], "missing": sorted(want_disc - analysed), "files": texts},
+                        "a module reachable through imports was not discovered by the workspace scan")
+        avail = {d["name"]: dec(d) for d in r[6]} if isinstance(r[6], list) else {}
+        for j, nm in enumerate(order):
+            row = rows[nm]
+            V.count()
+            py = {defid(x) and tuple(defid(x)) for x in row["py"]}
+            impl = defid(row["impl"]) and tuple(defid(row["impl"]))
+            actual = dec(r[1 + j])
+            if len(py - {None}) > 0 or impl:
+                V.nontriv((json.dumps(c["shape"], sort_keys=True), nm))
+            ex = {"shape": c["shape"], "using": c["using"], "name": nm, "expected_any_of": sorted(map(str, py)),
+                  "actual": str(actual), "model_predicts": str(impl), "blame": row["blame"], "files": texts}
+            if actual not in py:
+                if actual == impl:
+                    V.classify(row["blame"], ex, "an imported fixture is not available / not resolved to its defining module where the importing file provides it")
+                else:
+                    V.drift += 1
+                    V.violation(ex, "resolution of an imported fixture differs from the reference and from the model")
+            # the completion view must agree on availability (C14 'available exactly where ...')
+            a = avail.get(nm)
+            if (a is not None) != (None not in py) and actual in py:
+                V.classify(sorted(set(row["blame"]) | {"test_module_imports_ignored"}) if c["using"] == "ti" else row["blame"],
+                           dict(ex, view_entry=str(a)), "the available-fixtures view disagrees on whether an imported fixture is available")
+    # ---- part B: installed plugins (venv layouts)
+    vcases = list(C.tlc_cases(metav))
+    hcases, vctx = [], {}
+    for n, c in enumerate(vcases):
+        root = os.path.join(base, "v%d" % n)
+        ws = os.path.join(root, "proj")
+        sp = os.path.join(ws, ".venv", "lib", "python3.11", "site-packages")
+        os.makedirs(sp, exist_ok=True)
+        os.makedirs(os.path.join(ws, "tests"), exist_ok=True)
+        with open(os.path.join(ws, "tests", "test_x.py"), "w") as fh:
+            fh.write("def test_x(plug_fx, sub_fx, builtin_fx):\n    pass\n")
+        plug_src = "import pytest\n\n\n@pytest.fixture\ndef plug_fx():\n    return 1\n"
+        sub_src = "import pytest\n\n\n@pytest.fixture\ndef sub_fx():\n    return 1\n"
+        if c["builtin"]:
+            os.makedirs(os.path.join(sp, "_pytest"), exist_ok=True)
+            with open(os.path.join(sp, "_pytest", "fixtures_b.py"), "w") as fh:
+                fh.write("import pytest\n\n\n@pytest.fixture\ndef builtin_fx():\n    return 1\n")
+        pkgname = c["pkg"]                      # distribution name as written in dist-info
+        norm = pkgname.replace("-", "_").replace(".", "_")
+        meta_dir = os.path.join(sp, "%s-1.0.%s" % (pkgname, "dist-info" if c["meta"] == "dist-info" else "egg-info"))
+        os.makedirs(meta_dir, exist_ok=True)
+        with open(os.path.join(meta_dir, "entry_points.txt"), "w") as fh:
+            fh.write("[console_scripts]\nfoo = x:y\n\n[pytest11]\n%s = %s\n" % (norm, "plugmod" if c["target"] != "package" else "plugpkg"))
+        if c["install"] == "regular":
+            src_root = sp
+        elif c["install"] == "editable_in":
+            src_root = os.path.join(ws, "plugsrc")
+        else:
+            src_root = os.path.join(root, "elsewhere", "plugsrc")
+        os.makedirs(src_root, exist_ok=True)
+        if c["install"] != "regular":
+            with open(os.path.join(meta_dir, "direct_url.json"), "w") as fh:
+                json.dump({"url": "file://" + src_root, "dir_info": {"editable": True}}, fh)
+            stem = {"editable": "__editable__.%s-1.0" % norm, "under": "_%s" % norm, "plain": norm,
+                    "rawdash": "__editable__.%s-1.0" % pkgname}[c["pth"]]
+            with open(os.path.join(sp, stem + ".pth"), "w") as fh:
+                fh.write("# comment\nimport nothing\n%s\n" % src_root)
+        if c["target"] == "module":
+            with open(os.path.join(src_root, "plugmod.py"), "w") as fh:
+                fh.write(plug_src)
+        elif c["target"] == "package":
+            os.makedirs(os.path.join(src_root, "plugpkg"), exist_ok=True)
+            with open(os.path.join(src_root, "plugpkg", "__init__.py"), "w") as fh:
+                fh.write(plug_src)
+            with open(os.path.join(src_root, "plugpkg", "sub.py"), "w") as fh:
+                fh.write(sub_src)
+        ops = [{"op": "scan", "root": ws}, {"op": "snapshot", "full": True}, {"op": "unused"},
+               {"op": "goto", "path": os.path.join(ws, "tests", "test_x.py"), "line": 0, "col": 11},
+               {"op": "goto", "path": os.path.join(ws, "tests", "test_x.py"), "line": 0, "col": 20},
+               {"op": "goto", "path": os.path.join(ws, "tests", "test_x.py"), "line": 0, "col": 28}]
+        vctx[n] = c
+        hcases.append({"id": n, "ops": ops})
+    for res in C.run_harness(hcases, threads=8):
+        c = vctx[res["id"]]
+        snap, unused = res["res"][1], res["res"][2]
+        V.count()
+        V.nontriv(json.dumps({k: v for k, v in c.items() if k != "expect"}, sort_keys=True))
+        got = {}
+        if isinstance(snap, dict):
+            for name, lst in snap["defs"].items():
+                for d in lst:
+                    got[name] = "third" if d["third"] else ("plugin" if d["plugin"] else "project")
+        want = {k: v for k, v in c["expect"].items() if v != "absent"}
+        ex = {"layout": {k: v for k, v in c.items() if k != "expect"}, "classification": got, "expected": want}
+        if got != want:
+            V.violation(ex, "installed plugin fixtures are not found / not classified as the layout demands")
+        listed = {x["name"] for x in unused} if isinstance(unused, list) else set()
+        if any(want.get(nm) == "third" for nm in listed):
+            V.violation(dict(ex, unused=sorted(listed)), "a third-party fixture is listed by `fixtures unused`")
+        for j, nm in enumerate(["plug_fx", "sub_fx", "builtin_fx"]):
+            g = res["res"][3 + j]
+            if (g is not None and "name" in g) != (nm in want):
+                V.violation(dict(ex, name=nm, goto=g), "a usage of an installed plugin fixture does not resolve exactly when the plugin provides it")
+    shutil.rmtree(base, ignore_errors=True)
+    V.sample({"shape": cases[0]["shape"]})
+    V.sample({"venv_layout": {k: v for k, v in vcases[0].items()}})
+    cov = {"states": meta["distinct"] + metav["distinct"], "transitions": meta["transitions"] + metav["transitions"],
+           "traces_validated_against_impl": len(cases) + len(vcases), "exhaustive": True,
+           "tlc": [{"module": "Imports", "wall_s": meta["wall_s"]}, {"module": "Plugins", "wall_s": metav["wall_s"]}]}
+    return V.finish(
+        coverage_extra=cov,
+        rule="A: importer in {conftest.py, sub/conftest.py, test module} x first edge {star, explicit, aliased, pytest_plugins "
+             "(last assignment wins)} x spelling {relative level 1/2, absolute} x target {module, package __init__, module in "
+             "package} x onward chains {none, star, self import, 2-cycle, explicit re-export, pytest_plugins, two star imports}, "
+             "materialised on disk and scanned; every name is resolved from the using file and compared with PyProvides; the "
+             "scan must have discovered the import closure. B: venv layouts {dist-info, egg-info} x entry target {module, "
+             "package with submodule, missing} x {regular, editable inside / outside the workspace} x .pth naming x _pytest "
+             "built-ins; classification third-party / workspace plugin and resolution from a test",
+        assumptions=["absolute imports are judged only where the target sits next to the importer (rootdir-insertion semantics)",
+                     "library-level flags stand for 'never listed as project symbols' (the symbol providers filter on is_third_party)"])
